@@ -1,0 +1,21 @@
+//go:build verif
+
+package lexer
+
+import "github.com/elk-language/elk/token"
+
+// VerifLexEmbellished returns the token list the lexer produces in embellishment mode
+// (the mode ColorizeEmbellishedText uses). Add-only hook for the /verif harness.
+func VerifLexEmbellished(source string) []*token.Token {
+	l := NewWithMode("<main>", source, embellishmentMode)
+
+	var tokens []*token.Token
+	for {
+		tok := l.Next()
+		if tok.Type == token.END_OF_FILE {
+			break
+		}
+		tokens = append(tokens, tok)
+	}
+	return tokens
+}
